@@ -53,9 +53,16 @@ def bitsToRat (bits : Nat) : Bool × Nat × Nat :=
 /-- `10^e` as a rational `(num, den)` -/
 def pow10Rat (e : Int) : Nat × Nat := if e ≥ 0 then (10 ^ e.toNat, 1) else (1, 10 ^ (-e).toNat)
 
-/-- nearest double to `man · 10^e` -/
+/-- nearest double to `man · 10^e`. The two shortcuts only avoid astronomically large powers of ten:
+    `man ≥ 1` and `e > 400` gives a value `≥ 10^401` (beyond the largest double, `< 1.8·10^308`: overflow);
+    `man < 2^(log2 man + 1) ≤ 10^(log2 man + 1)`, so `e + log2 man + 1 < -400` gives a value `< 10^-400`, below half
+    the smallest subnormal (`≈ 2.47·10^-324`): it rounds to zero. -/
 def roundDec (neg : Bool) (man : Nat) (e : Int) : Nat × Bool :=
-  let (pn, pd) := pow10Rat e
-  roundRat neg (man * pn) pd
+  if man == 0 then (signBit neg, false)
+  else if e > 400 then (signBit neg + 2047 * 2^52, true)
+  else if e + (Nat.log2 man : Int) + 1 < -400 then (signBit neg, false)
+  else
+    let (pn, pd) := pow10Rat e
+    roundRat neg (man * pn) pd
 
 end RJson.Spec
